@@ -5,7 +5,7 @@
    Specification: an insertion-ordered set of pool indices (s_append / s_remove / s_mem on NoDup lists).
    Property theorems only; each closed by [exact lemma]. *)
 From AP.Model Require Import Prelude Vocab Pred IriEq Equal Coll.
-From AP.Proofs Require Import NlvP IriEqP EqualP CollP.
+From AP.Proofs Require Import NlvP IriEqP EqualP CollP CollIrisP.
 
 (* ---- single steps, for ANY membership test that is reflexive on the pool and false between distinct
    pool members (the hypothesis eq_pool), any element type ---- *)
@@ -68,9 +68,51 @@ Theorem C13_iris_contains : forall ids,
   forall s i, Forall (fun j => j < length ids) s -> i < length ids ->
   g_contains bytes iri_member_eqb (map (fun k => nth k ids []) s) (nth i ids []) = s_mem s i.
 Proof. exact iris_contains_spec. Qed.
-(* PARTIAL for the IRI list: the two step theorems above are proved; the history theorem (the analogue of
-   C13_refines for CIRIs, through lnk / IIri of c_step) is not stated separately - it is the same
-   induction; histories on IRIs are covered by the correspondence cases and the native evaluation. *)
+
+(* ---- histories on the IRI list: every history over the pool leaves the contents of the insertion-ordered set
+   driven by the same calls, shown as the IRIs equal to the members' ids (shown pool i = IIri (id of member i)),
+   with the same trace (Count after every step, every Contains answer).  The abstract machine is the one of the
+   item containers; the IRI list offers no Remove and its item-list view IRIs.Collection() is a copy, so a
+   Remove through the view changes nothing - on both sides (si_step).  Hypotheses on the pool: no member and no
+   member's link is nil-like (IRIs.Contains answers false for the empty and the "-" IRI, so Append would add
+   such a link again on every call), IRI.Equals(., ., false) tells the links of distinct members apart. ---- *)
+Theorem C13_refines_iris : forall pool,
+  (forall i, i < length pool -> is_nil (pget pool i) = false) ->
+  (forall i, i < length pool -> is_nil (IIri false (lnk (pget pool i))) = false) ->
+  (forall i j, i < length pool -> j < length pool ->
+     iri_eqb (lnk (pget pool j)) (lnk (pget pool i)) false = Nat.eqb i j) ->
+  forall ops, Forall (fun o => op_idx o < length pool) ops ->
+  forall s, wf (length pool) s ->
+  c_run pool CIRIs (map (shown pool) s) ops = (map (shown pool) (fst (si_run s ops)), snd (si_run s ops)) /\
+  wf (length pool) (fst (si_run s ops)) /\ fst (si_run s ops) = fold_left si_step ops s.
+Proof. exact refines_iris. Qed.
+
+(* with the decidable pool condition, from the empty list *)
+Theorem C13_refines_iris_pool : forall pool ops,
+  iris_pool pool = true -> Forall (fun o => op_idx o < length pool) ops ->
+  c_run pool CIRIs [] ops = (map (shown pool) (fold_left si_step ops []), snd (si_run [] ops)) /\
+  NoDup (fold_left si_step ops []).
+Proof. exact refines_iris_pool. Qed.
+
+(* the pools of the item containers qualify as soon as every member has a link that is not nil-like *)
+Theorem C13_iris_pool_of_distinct : forall pool,
+  distinct_pool pool = true -> forallb (fun x => negb (is_nil (IIri false (lnk x)))) pool = true ->
+  iris_pool pool = true.
+Proof. exact distinct_pool_iris. Qed.
+
+(* the specification of the IRI list IS the insertion-ordered set of the item containers: identical on every
+   history without a Remove call; on any history the final contents are those of the set driven by the history
+   with the (ineffective) Remove calls left out; one trace entry per call *)
+Theorem C13_iris_spec_is_set : forall ops, forallb (fun o => negb (is_remove o)) ops = true ->
+  forall s, si_run s ops = s_run s ops.
+Proof. exact si_run_no_remove. Qed.
+Theorem C13_iris_spec_final : forall ops s,
+  fold_left si_step ops s = fold_left s_step (filter (fun o => negb (is_remove o)) ops) s.
+Proof. exact si_final_filter. Qed.
+Theorem C13_iris_trace_length : forall ops s, length (snd (si_run s ops)) = length ops.
+Proof. exact si_trace_length. Qed.
+Theorem C13_iris_count_is_cardinality : forall n s o, wf n s -> op_idx o < n -> NoDup (si_step s o).
+Proof. exact si_step_nodup. Qed.
 
 (* ---- the five sentences, on the specification every history refines ---- *)
 Theorem C13_append_present_changes_nothing : forall s i, s_mem s i = true -> s_append s i = s.
@@ -106,4 +148,15 @@ Example C13_example_history :
     [OpAppend 1; OpAppend 0; OpAppend 1; OpContains 0; OpRemove 1; OpContains 1; OpAppend 3; OpAppend 1] =
   (map (pget ex_pool) [0; 3; 1],
    [(1, None); (2, None); (2, None); (2, Some true); (1, None); (1, Some false); (2, None); (3, None)]).
+Proof. vm_compute. reflexivity. Qed.
+
+(* the same pool is a pool for the IRI list, and a history runs as specified there (the Remove has no effect) *)
+Example C13_example_iris_pool : iris_pool ex_pool = true.
+Proof. vm_compute. reflexivity. Qed.
+
+Example C13_example_iris_history :
+  c_run ex_pool CIRIs []
+    [OpAppend 1; OpAppend 0; OpAppend 1; OpContains 0; OpRemove 1; OpContains 1; OpAppend 3; OpContains 2] =
+  (map (shown ex_pool) [1; 0; 3],
+   [(1, None); (2, None); (2, None); (2, Some true); (2, None); (2, Some true); (3, None); (3, Some false)]).
 Proof. vm_compute. reflexivity. Qed.
